@@ -71,6 +71,23 @@ MUTANTS = [
     ("c11-write-not-closing", "C11", "rpyc/core/stream.py",
      "        except socket.error:\n            ex = sys.exc_info()[1]\n            self.close()\n            raise EOFError(ex)\n\n\nclass TunneledSocketStream",
      "        except socket.error:\n            ex = sys.exc_info()[1]\n            raise EOFError(ex)\n\n\nclass TunneledSocketStream"),
+    # ---- C12
+    ("c12-while-to-if", "C12", "rpyc/core/protocol.py",
+     "        while self._send_queue:\n            if not self._sendlock.acquire(False):", "        for _once in (1,):\n            if not self._send_queue:\n                break\n            if not self._sendlock.acquire(False):"),
+    ("c12-no-recheck", "C12", "rpyc/core/protocol.py",
+     "                if not self._send_queue:\n                    # Must `continue` to ensure that `send_queue` is checked\n                    # after releasing the lock! (in case another producer is\n                    # scheduled before `release`)\n                    continue\n",
+     ""),
+    ("c12-continue-to-return", "C12", "rpyc/core/protocol.py",
+     "                    # scheduled before `release`)\n                    continue", "                    # scheduled before `release`)\n                    return"),
+    ("c12-blocking-acquire", "C12", "rpyc/core/protocol.py",
+     "            if not self._sendlock.acquire(False):", "            if not self._sendlock.acquire(True):"),
+    ("c12-pop-last", "C12", "rpyc/core/protocol.py",
+     "                data = self._send_queue.pop(0)", "                data = self._send_queue.pop()"),
+    ("c12-release-before-write", "C12", "rpyc/core/protocol.py",
+     "                data = self._send_queue.pop(0)\n                self._channel.send(data)\n            finally:\n                self._sendlock.release()",
+     "                data = self._send_queue.pop(0)\n            finally:\n                self._sendlock.release()\n            self._channel.send(data)"),
+    ("c12-seq-nonatomic", "C12", "rpyc/core/protocol.py",
+     "        return next(self._seqcounter)", "        n = getattr(self, '_sq', 0)\n        self._sq = n + 1\n        return n"),
     # ---- C15
     ("c15-expired-gt", "C15", "rpyc/lib/__init__.py",
      "        return self.finite and time.time() >= self.tmax", "        return self.finite and time.time() > self.tmax"),
